@@ -121,11 +121,17 @@ pub fn run(args: &Args, prefix: &str) -> i32 {
                 ("fin-only", [vec![OpenUni, Shutdown { slot: 0 }], vec![AcceptUni]], 26),
                 ("bidi-3", [vec![OpenBi, Write { slot: 0, n: 3 }, Shutdown { slot: 0 }], vec![AcceptBi, Shutdown { slot: 0 }]], 30),
                 ("uni-2x2", [vec![OpenUni, Write { slot: 0, n: 2 }, Write { slot: 0, n: 2 }, Shutdown { slot: 0 }], vec![AcceptUni]], 26),
+                // no FIN: nothing but the data itself can wake the reader
+                ("uni-open-ended", [vec![OpenUni, Write { slot: 0, n: 2 }, Write { slot: 0, n: 2 }, Flush { slot: 0 }], vec![AcceptUni]], 26),
+                ("bidi-open-ended", [vec![OpenBi, Write { slot: 0, n: 2 }, Write { slot: 0, n: 1 }, Flush { slot: 0 }], vec![AcceptBi, Write { slot: 0, n: 2 }, Flush { slot: 0 }]], 30),
                 ("reset", [vec![OpenBi, Write { slot: 0, n: 3 }, Cancel { slot: 0, code: 7 }], vec![AcceptBi, Write { slot: 0, n: 2 }, Shutdown { slot: 0 }]], 1200),
                 ("stop", [vec![OpenUni, Write { slot: 0, n: 2 }, Write { slot: 0, n: 1 }, Shutdown { slot: 0 }], vec![AcceptUni, Stop { slot: 0, code: 9 }]], 64),
             ];
             for (name, sc, cap) in small {
                 configs.push((format!("{name}-cap{cap}-d1"), base_cfg(sc.clone(), cap), 1));
+                if !th && matches!(name, "fin-only" | "uni-2x2" | "uni-open-ended") {
+                    configs.push((format!("{name}-cap{cap}-d2"), base_cfg(sc.clone(), cap), 2));
+                }
                 if th {
                     configs.push((format!("{name}-cap{cap}-d2"), base_cfg(sc.clone(), cap), 2));
                     configs.push((format!("{name}-cap27-d2"), base_cfg(sc, 27), 2));
